@@ -75,29 +75,33 @@ Proof.
   exfalso. apply Hn. apply mem_ip_In. exact (proj1 (forallb_forall _ _) E x Hx).
 Qed.
 
-(* when SetBalancer changes the Service object and the write succeeds, and an
-   address the Service held before (in memory, or recorded in its status) is no
-   longer held although it still belongs to a pool, the result is ReprocessAll *)
+(* when an address the Service held before (in memory, or recorded in its
+   status) is no longer held although it still belongs to a pool, SetBalancer
+   answers ReprocessAll - whether or not the Service object needed an update -
+   unless the status write it attempted failed (then it answers Error and the
+   request is retried, C06) *)
 Theorem release_triggers_reload c s o k oc :
   set_balancer rank c s (Some o) k = Some oc -> c_have_pools c = true ->
-  oc_write oc <> None -> k_write k = true ->
+  (oc_write oc = None \/ k_write k = true) ->
   (releases (c_mem c) (c_mem (oc_state oc)) s (ips_of (c_mem c) s) \/
    releases (c_mem c) (c_mem (oc_state oc)) s (o_status o)) ->
   oc_sync oc = ReprocessAll.
 Proof.
   unfold set_balancer. intros H Hp. rewrite Hp in H. cbn [negb] in H.
   destruct (converge rank (c_mem c) s o k) as [v ok|]; [|discriminate].
+  assert (Hrel' : forall ips, releases (c_mem c) (cv_mem v) s ips ->
+     match ips with
+     | [] => false
+     | _ :: _ => negb (subset_ips ips (ips_of (cv_mem v) s)) &&
+                 match pool_for (by_name (s_pools (cv_mem v))) ips with Some _ => true | None => false end
+     end = true).
+  { intros ips (Hne & Hex & Hpool). destruct ips as [|x l]; [congruence|].
+    rewrite (subset_ips_false _ _ Hex). cbn.
+    destruct (pool_for (by_name (s_pools (cv_mem v))) (x :: l)); [reflexivity|congruence]. }
   destruct (negb (negb (ips_eqb (cv_status v) (o_status o)) || negb (opt_pool_eqb (cv_annot v) (o_annot o)))).
-  - injection H as <-. cbn. intros Hw. congruence.
-  - injection H as <-. cbn. intros _ -> Hrel.
-    assert (Hrel' : forall ips, releases (c_mem c) (cv_mem v) s ips ->
-       match ips with
-       | [] => false
-       | _ :: _ => negb (subset_ips ips (ips_of (cv_mem v) s)) &&
-                   match pool_for (by_name (s_pools (cv_mem v))) ips with Some _ => true | None => false end
-       end = true).
-    { intros ips (Hne & Hex & Hpool). destruct ips as [|x l]; [congruence|].
-      rewrite (subset_ips_false _ _ Hex). cbn. destruct (pool_for _ _); [reflexivity|congruence]. }
+  - injection H as <-. cbn. intros _ Hrel.
+    destruct Hrel as [Hr|Hr]; apply Hrel' in Hr; rewrite Hr; cbn; rewrite ?orb_true_r; reflexivity.
+  - injection H as <-. cbn. intros [Hw|Hw] Hrel; [discriminate|]. rewrite Hw.
     destruct Hrel as [Hr|Hr]; apply Hrel' in Hr; rewrite Hr; cbn; rewrite ?orb_true_r; reflexivity.
 Qed.
 
